@@ -141,7 +141,12 @@ Proof.
       split; [unfold has in *; rewrite Dx, B; exact X|].
       rewrite (static_inputs _ _ Sx), C. exact Y. }
     destruct rb as [v|kb|]; [| |congruence].
-    + destruct (cl_cached cl) eqn:Ec.
+    + destruct (tainted st2).
+      { assert (Hcase : (r, st') = (Err KNone, rollback_frame st2 0) \/ (r, st') = (Val v, pop_tainted st2)).
+        { destruct v; [right; now rewrite <- H|]. destruct (cl_allow_none cl); [right|left]; now rewrite <- H. }
+        destruct Hcase as [H'|H']; inversion H'; subst r st'; clear H' H; [apply Hroll; auto|].
+        exact (Hroll st2 0 eq_refl eq_refl eq_refl K2 (fun _ _ _ => I)). }
+      destruct (cl_cached cl) eqn:Ec.
       * destruct (store_value st2 cl i v) as [rs st3] eqn:Es.
         assert (Hs3 : (rs = Val v /\ st3 = upd_data st2 (set_data (s_data st2) i v)) \/ (rs = Err KNone /\ st3 = st2)).
         { unfold store_value in Es. destruct v as [z|]; [left; inversion Es; auto|].
@@ -229,7 +234,7 @@ Proof.
   unfold eval_top in H.
   destruct (lookup_cell (s_cells st) (fst i)) as [cl|] eqn:El; [|inversion H; subst; apply RgE_refl].
   destruct (if cl_cached cl then lookup_data (s_data st) i else None) eqn:Eh; [inversion H; subst; apply RgE_refl|].
-  set (st0 := upd_rolled (upd_err st None) []) in *.
+  set (st0 := upd_taint (upd_rolled (upd_err st None) []) 0) in *.
   destruct (eval_formula fuel st0 cl i) as [rf st1] eqn:Ef.
   assert (Hrf : rf <> OutOfFuel) by (intros ->; inversion H; subst; congruence).
   assert (I0 : Inv st0) by exact HI.
